@@ -306,3 +306,77 @@ impl<A> Display for NFA<A> {
         Ok(())
     }
 }
+
+#[cfg(lexgen_verif)]
+impl<A: crate::verif::VerifVal> NFA<A> {
+    /// One line per state and per transition, targets sorted.
+    pub fn verif_dump(&self) -> String {
+        use crate::verif::sorted_join;
+        use std::fmt::Write as _;
+        let mut s = String::new();
+        writeln!(s, "NFA {}", self.states.len()).unwrap();
+        for (idx, state) in self.states.iter().enumerate() {
+            match &state.accepting {
+                None => writeln!(s, "S {} - -", idx).unwrap(),
+                Some(acc) => writeln!(
+                    s,
+                    "S {} {} {}",
+                    idx,
+                    acc.value.vv(),
+                    match acc.right_ctx {
+                        None => "-".to_string(),
+                        Some(ctx) => ctx.as_usize().to_string(),
+                    }
+                )
+                .unwrap(),
+            }
+            if !state.empty_transitions.is_empty() {
+                writeln!(
+                    s,
+                    "e {}",
+                    sorted_join(state.empty_transitions.iter().map(|x| x.0))
+                )
+                .unwrap();
+            }
+            let mut chars: Vec<(&char, &Set<StateIdx>)> = state.char_transitions.iter().collect();
+            chars.sort_by_key(|(c, _)| **c);
+            for (c, next) in chars {
+                writeln!(s, "c {} {}", *c as u32, sorted_join(next.iter().map(|x| x.0))).unwrap();
+            }
+            for range in state.range_transitions.iter() {
+                writeln!(
+                    s,
+                    "r {} {} {}",
+                    range.start,
+                    range.end,
+                    sorted_join(range.value.iter().map(|x| x.0))
+                )
+                .unwrap();
+            }
+            if !state.any_transitions.is_empty() {
+                writeln!(
+                    s,
+                    "a {}",
+                    sorted_join(state.any_transitions.iter().map(|x| x.0))
+                )
+                .unwrap();
+            }
+            if !state.end_of_input_transitions.is_empty() {
+                writeln!(
+                    s,
+                    "z {}",
+                    sorted_join(state.end_of_input_transitions.iter().map(|x| x.0))
+                )
+                .unwrap();
+            }
+        }
+        s
+    }
+}
+
+#[cfg(lexgen_verif)]
+impl StateIdx {
+    pub fn verif_usize(&self) -> usize {
+        self.0
+    }
+}
